@@ -112,6 +112,11 @@ SIM = {
                                MaxLen=16, MaxSent=8), 16, 200)],
 }
 
+# configurations whose edges are replayed a second time through RtpTransport's keyed receive path (listeners, RTCP
+# listener, ingress observer as sinks): a forged packet yields no media, a genuine one reaches its own listener unchanged
+TRANSPORT = {"C04": ("multi/rtcp", "boundary/bits16", "sim/2ssrc"),
+             "C05": ("forge/bits4", "forge/bits16", "sim/forge")}
+
 INVARIANTS = "TypeOK SenderAgreement IndexAgreement NoPhantomIndex NoLossByEviction SrtcpIndexFresh Rejected RtcpAccepted"
 # configurations that describe the pinned code's open deviation generate with it switched on (and without the invariant
 # it breaks): their expectations then match the code, and the replayer reports the property-level consequence
@@ -258,6 +263,14 @@ def run(pid, tier, rule_text, assumptions, bits="few"):
         # forged steps inside histories are concretised sparsely; the bit-exhaustive mode is for the final action of G-edge
         rows, summ = replay_edges(ck, edges, label, bits="few" if sim else bits)
         classify(ck, pid, rows, label)
+        if label in TRANSPORT[pid]:
+            trows, tsumm = replay_edges(ck, edges, label + "_transport", bits="few", extra=["--transport"])
+            classify(ck, pid, trows, label + "@transport")
+            tr = ck.cov.setdefault("transport", {"edges": 0, "genuine_delivered_unchanged": 0, "forged_silent": 0})
+            tr["edges"] += tsumm["edges"]
+            tr["genuine_delivered_unchanged"] += tsumm["ref_checked"]
+            tr["forged_silent"] += tsumm["ref_skipped"]
+            tot["evaluations"] = tot.get("evaluations", 0) + tsumm["evaluations"]
         n, nt = nontrivial_edges(edges, pid, ck.cov["samples"], want=8 if sim else 6)
         _rm(edges)
         total_edges += summ["edges"]
